@@ -67,6 +67,9 @@ func swProgram(name string, f *swFam) *Prog {
 			{IsDef: true, Body: []Stmt{{K: "cmd", Toks: []string{"odef"}}}},
 		}}
 		body = []Stmt{outer, {K: "cmd", Toks: []string{"out"}}}
+	case "thenswitch":
+		second := Stmt{K: "switch", V: "VAR_T", Cases: []Case{{Val: "1", Body: []Stmt{{K: "cmd", Toks: []string{"t1"}}}}, {Val: "2", Body: []Stmt{{K: "cmd", Toks: []string{"t2"}}}}}}
+		body = []Stmt{sw, second}
 	case "inif":
 		body = []Stmt{{K: "if", Arms: []Arm{{Cond: flagA, Body: []Stmt{sw}}}, HasElse: true, Els: []Stmt{before}}, after}
 	default:
